@@ -17,7 +17,7 @@ BETAS = ["0.001", "0.1", "1.0", "0.6931471805599453", "2.0794415416798357", "30.
 
 
 def relclose(a, b, rel, ab=0.0):
-    return abs(a - b) <= rel * (abs(a) + abs(b)) + ab
+    return abs(a - b) <= rel * (abs(a) + abs(b)) + ab      # False for NaN
 
 
 def main():
@@ -80,14 +80,14 @@ def main():
             if any((not math.isfinite(x)) or x < 0 for x in lw):
                 c.violation("%s: weights not finite / negative: %s" % (what, lw[:8]), rep, cls="weights")
                 continue
-            if abs(sum(lw) - 1) > 1e-12 * len(lw):
+            if not (abs(sum(lw) - 1) <= 1e-12 * len(lw)):
                 c.violation("%s: weights sum to %r" % (what, sum(lw)), rep, cls="weights")
                 continue
             lib = sorted(zip(le, lw))
             spec = sorted(zip([float(e) for e in E], [float(x) for x in w]))
             bad = None
             for (a, bb) in zip(lib, spec):
-                if abs(a[0] - bb[0]) > 1e-9 * emax or not relclose(a[1], bb[1], rel, 1e-15):
+                if not (abs(a[0] - bb[0]) <= 1e-9 * emax) or not relclose(a[1], bb[1], rel, 1e-15):
                     bad = (a, bb)
                     break
             if bad:
@@ -108,19 +108,19 @@ def main():
             for i in range(m["M"]):
                 ni = exact.avg_value(p, avg[(i, i)], beta)
                 occ_tot += ni.real
-                if abs(float(r["occ_i"][im[i]]) - float(ni.real)) > tolA:
+                if not (abs(float(r["occ_i"][im[i]]) - float(ni.real)) <= tolA):
                     c.violation("%s: occupancy of index %d is %s, specification %s" % (what, im[i], r["occ_i"][im[i]], mp.nstr(ni.real, 15)), rep, cls="occupancy")
                     ok = False
                     break
                 for j in range(m["M"]):
                     a = exact.avg_value(p, avg[(i, j)], beta)
                     got = lib_avg[(im[i], im[j])]
-                    if abs(got - complex(a)) > tolA:
+                    if not (abs(got - complex(a)) <= tolA):
                         c.violation("%s: <c+_%d c_%d> = %s, specification %s" % (what, im[i], im[j], got, mp.nstr(a, 15)), rep, cls="ensemble-average")
                         ok = False
                         break
                     d = exact.docc_value(p, docc[(i, j)], beta)
-                    if abs(lib_docc[(im[i], im[j])] - float(d.real)) > tolA:
+                    if not (abs(lib_docc[(im[i], im[j])] - float(d.real)) <= tolA):
                         c.violation("%s: <n_%d n_%d> = %s, specification %s" % (what, im[i], im[j], lib_docc[(im[i], im[j])], mp.nstr(d.real, 15)), rep, cls="double-occupancy")
                         ok = False
                         break
@@ -128,7 +128,7 @@ def main():
                         c.nontriv("offdiag %s %s" % (m["id"], beta))
                 if not ok:
                     break
-            if ok and abs(float(r["occ"]) - float(occ_tot)) > tolA * m["M"]:
+            if ok and not (abs(float(r["occ"]) - float(occ_tot)) <= tolA * m["M"]):
                 c.violation("%s: total occupancy %s, specification %s" % (what, r["occ"], mp.nstr(occ_tot, 15)), rep, cls="occupancy")
                 ok = False
             if ok:
@@ -147,7 +147,7 @@ def main():
             b = float(r["beta"])
             lw = [float(x) for x in r["w"]]
             le = [float(x) for x in r["E"]]
-            if any(x < 0 or not math.isfinite(x) for x in lw) or abs(sum(lw) - 1) > 1e-12 * len(lw):
+            if any((not math.isfinite(x)) or x < 0 for x in lw) or not (abs(sum(lw) - 1) <= 1e-12 * len(lw)):
                 c.violation("%s beta=%s: weights negative or not normalised (sum %r)" % (g["id"], r["beta"], sum(lw)), g, cls="weights")
                 continue
             k0 = max(range(len(lw)), key=lambda k: lw[k])
